@@ -41,6 +41,7 @@ type namedRef struct {
 	kind       string // struct, alias (over basic/map/slice), iface, other
 	generic    bool
 	comparable bool
+	fields     []string // struct: declared field names
 }
 
 type progGen struct {
@@ -154,6 +155,32 @@ func GenProgram(r *RNG, o ProgOpts) *Program {
 			case 0, 10, 11: // struct with fields, tags, embedded fields
 				ref.kind = "struct"
 				fmt.Fprintf(&b, "// %s is a struct.\ntype %s struct {\n", name, name)
+				if r.Chance(1, 5) {
+					// shadowing shape: embeds an earlier struct by value and re-declares its field names with scalar types
+					var cands []namedRef
+					for _, n := range g.named {
+						if n.kind == "struct" && !n.generic && len(n.fields) > 0 {
+							cands = append(cands, n)
+						}
+					}
+					if len(cands) > 0 {
+						n := cands[r.Intn(len(cands))]
+						s := n.name
+						if n.pkg != path {
+							imports[n.pkg] = true
+							s = pkgIdent(n.pkg) + "." + n.name
+						}
+						fmt.Fprintf(&b, "\t%s\n", s)
+						for _, f := range n.fields {
+							if r.Chance(3, 4) {
+								fmt.Fprintf(&b, "\t%s %s\n", f, r.Pick([]string{"int", "string", "bool", "[2]int8"}))
+								ref.fields = append(ref.fields, f)
+							}
+						}
+						b.WriteString("}\n\n")
+						break
+					}
+				}
 				for fi, nf := 0, r.Intn(4); fi < nf; fi++ {
 					tag := ""
 					if r.Chance(1, 3) {
@@ -164,6 +191,7 @@ func GenProgram(r *RNG, o ProgOpts) *Program {
 						fname = fmt.Sprintf("f%d", fi)
 					}
 					fmt.Fprintf(&b, "\t%s %s%s\n", fname, g.typeExpr(path, 2, imports, true), tag)
+					ref.fields = append(ref.fields, fname)
 				}
 				// embedded field: an earlier named struct (no cycles by value)
 				if r.Chance(1, 3) {
